@@ -17,7 +17,8 @@ RULE = ("cases from rng(seed, 3, 0, i): well-posed cluster graphs (1-4 clusters 
         "tree + loop + parallel odometry edges in either vertex order, landmarks with rotated offsets, custom unary/binary/ternary edges with "
         "numerical or AD Jacobians, dense SPD information with cross terms, shuffled vertex/edge lists, ids negative/sparse/2^62/2^64, several "
         "fixed vertices, initial poses sharing one pose object / numpy array) x fix_first_pose in {True, False}; one real iteration vs the dense reduced Gauss-Newton step; an eighth of the graphs start within 1e-12..1e-7 (relative) of their optimum (tiny but non-zero steps); every 4th case adds a second call on the same objects after a vertex was newly fixed / information changed, compared with a fresh graph in the same state. distinct = fingerprint "
-        "of the spec; non-trivial = at least one free vertex moved by more than 1e-6 and cond(H_reduced) <= 1e10.")
+        "of the spec; non-trivial = at least one free vertex moved by more than 1e-6 and cond(H_reduced) <= 1e10."
+        " later additions: sparse information patterns, starts within 1e-12..1e-7 of the optimum, up to 32 single-step calls, second calls after a converged first call with replaced measurements / in-place pose or offset writes / re-targeted edges.")
 REQ = ["eval:gn-step-applied", "eval:fixed-vertex-zero-increment", "eval:solver-boundary-H", "eval:solver-boundary-rhs", "class:parallel_edges", "class:edge_high_index_first",
        "class:mixed_dimensions", "class:custom_unary", "class:custom_ternary", "class:custom_numeric_jacobian", "class:fix_first_pose=True", "class:fix_first_pose=False",
        "class:several_fixed_per_cluster", "class:landmark_offset_rotated", "class:shared_pose_storage", "class:exact_special_values", "class:second_call_after_edits", "eval:second-call-equals-fresh-graph", "class:fixed_flags_as_int", "class:landmark_offset_zero_translation_rotated", "eval:K-iterations-equal-K-single-steps", "class:information_scales:per_edge",
